@@ -151,6 +151,16 @@ PROPS = {
         "trusted_base": BASE_TRUST + ["model/Float.v (executable IEEE-754 model, validated against the hardware by check C04)"],
         "assumptions": ["dithering, the sub-sampled and bi-planar encoders (chroma averaging) are not modelled: oracles only", "f32 inputs have no nearest-rounding theorem (2^32 domain): model comparison on boundary and random values"],
     },
+    "C01": {
+        "kernel_sample": 10,
+        "harness_timeout": 3000,
+        "rule": "implementation-only totality oracle in the debug (overflow-checked) and release builds: 150000 (thorough 3000000) generated files - valid headers from every constructor family (all DXGI codes, FourCCs, mask formats, 2D / cube / volume / array, mip chains), the same with 1-3 u32 fields set to 0/1/2^k/2^k-1/2^k+1/MAX/random, dimension fields mutated, 31 random boundary words with and without a DX10 extension, garbage of 0..160 bytes; "
+                "data length = header only / cut anywhere / exactly the declared length / one short / longer / 2^10..2^45 (served as zeros by a virtual reader); ParseOptions permissive x skip_magic x file_len {None, actual, random, declared}; reader delivering 1-byte / random-length short reads and failing at a byte offset; "
+                "2..11 random operations per parsed file: read_surface into one of the 12 colour formats (surfaces up to 40000 pixels), read_surface_rect of up to 9x9 at corner / far-edge / random offsets (also inside 2^32-sized surfaces), skip_surface, skip_mipmaps, rewind_to_previous_surface, rewind_to_start, layout accessors incl. out-of-range indices; "
+                "violations: a panic, a call slower than 10 s, Ok returned by a call during which the reader reported an error or was asked for bytes beyond its end; plus 20000 (200000) full decodes of truncated / failing valid files that must return an I/O error",
+        "trusted_base": BASE_TRUST + ["the oracle observes panics through catch_unwind and non-termination through a 10 s per-call clock; memory safety is the compiler's (the crate is safe Rust apart from the byte casts of src/cast.rs)"],
+        "assumptions": ["block decoders (BC, ASTC) and pixel conversions are total functions on fixed-size inputs; their totality is exercised by the oracle, and for the modelled ones follows from the models of C03/C04 being total"],
+    },
     "C19": {
         "kernel_sample": 150,
         "rule": "systematic sweep of headers: every valid DXGI code x 5 alpha modes, the 27 table FourCCs + 60 boundary/arbitrary u32 FourCCs, every mask row with every one-bit perturbation of its red mask, alpha mask and flags and every bit count; "
